@@ -214,6 +214,15 @@ class Base:
     def exact_class_fact(self, cls, cls_term):
         return cls_term == self.classes.cid(cls)
 
+    def name_int(self, st, term, prefix="n"):
+        """name a non-trivial integer term with a fresh constant (keeps VCs small)."""
+        t = z3.simplify(term)
+        if z3.is_int_value(t) or (z3.is_const(t) and t.decl().kind() == z3.Z3_OP_UNINTERPRETED):
+            return t
+        c = smt.fresh(prefix, IntS)
+        st.assume(c == t)
+        return c
+
     # ---------------------------------------------------------------- lists
     def list_len(self, st, ref_term):
         n = z3.Select(st.H("$len"), Val.r(ref_term))
